@@ -116,7 +116,7 @@ def frameResult (c : Cons) (op : Tag → Content → Prog (α × Content)) (cls 
     (cnt tail : Bytes) (lim' : Option Nat) : Res ((Option α × Cons) × G0) :=
   if (b && c.mode == .cer) = true then .error .content
   else
-    match runG0 (op (C12.tagOf cls num) (if b = true then .cons ⟨.definite, c.mode⟩ else .prim c.mode))
+    match runG0 (op (C12.tagOf cls num) (if b = true then .cons ⟨.definite, c.mode, 0⟩ else .prim c.mode))
         (St (cnt ++ tail) (some cnt.length)) with
     | .error e => .error e
     | .ok ((res, content'), g3) =>
@@ -200,7 +200,7 @@ theorem frame_definite (c : Cons) (cls num : Nat) (b : Bool) (hc : cls ≤ 3) (h
     by_cases hcer : (b && c.mode == .cer) = true
     · simp [hcer]
     · simp only [hcer, Bool.false_eq_true, if_false]
-      cases runG0 (op (C12.tagOf cls num) (if b = true then Content.cons ⟨.definite, c.mode⟩ else Content.prim c.mode))
+      cases runG0 (op (C12.tagOf cls num) (if b = true then Content.cons ⟨.definite, c.mode, 0⟩ else Content.prim c.mode))
           (St (cnt ++ tail) (some cnt.length)) with
       | error e => rfl
       | ok r =>
@@ -217,7 +217,7 @@ theorem frame_definite (c : Cons) (cls num : Nat) (b : Bool) (hc : cls ≤ 3) (h
     by_cases hcer : (b && c.mode == .cer) = true
     · simp [hcer]
     · simp only [hcer, Bool.false_eq_true, if_false]
-      cases runG0 (op (C12.tagOf cls num) (if b = true then Content.cons ⟨.definite, c.mode⟩ else Content.prim c.mode))
+      cases runG0 (op (C12.tagOf cls num) (if b = true then Content.cons ⟨.definite, c.mode, 0⟩ else Content.prim c.mode))
           (St (cnt ++ tail) (some cnt.length)) with
       | error e => rfl
       | ok r =>
@@ -390,7 +390,7 @@ theorem rt_cons_opt (m : Mode) (hm : m ≠ .cer) (cls num : Nat) (hc : cls ≤ 3
   have hcer : (true && c.mode == .cer) = false := by
     rw [hmode]; cases m <;> simp at hm ⊢
   simp only [hcer, Bool.false_eq_true, if_false, if_true]
-  have hi := hin ⟨.definite, c.mode⟩ tail (some ib.length) hmode (by simp) (by simp)
+  have hi := hin ⟨.definite, c.mode, 0⟩ tail (some ib.length) hmode (by simp) (by simp)
     (by intro l hl; cases hl; exact Nat.le_refl _)
   simp only [asConstructed, runG0_bind, hi, Option.map, Nat.sub_self, runG0_pure, Content.exhausted,
     Cons.exhausted, run_limitedExhausted, if_true]
@@ -408,7 +408,7 @@ theorem rt_cons (m : Mode) (hm : m ≠ .cer) (cls num : Nat) (hc : cls ≤ 3) (h
 
 /-- the exhaustion check of an indefinite `Constructed` consumes exactly the end-of-contents octets -/
 theorem eoc_exhausted (m : Mode) (tail : Bytes) (lim : Option Nat) (hcov : ∀ l, lim = some l → 2 ≤ l) :
-    runG0 (Cons.exhausted ⟨.indefinite, m⟩) (St (0 :: 0 :: tail) lim) = .ok ((), St tail (lim.map (· - 2))) := by
+    runG0 (Cons.exhausted ⟨.indefinite, m, 0⟩) (St (0 :: 0 :: tail) lim) = .ok ((), St tail (lim.map (· - 2))) := by
   let g : G0 := St (0 :: 0 :: tail) lim
   have hv : ∃ t', g.view = 0 :: 0 :: t' := by
     cases hl : lim with
@@ -493,7 +493,7 @@ theorem rt_cons_cer_opt (cls num : Nat) (hc : cls ≤ 3) (hn : num ≤ 0x1fffff)
     · left; exact h0
   have hder : (!true || c.mode == .der) = false := by rw [hmode]; rfl
   simp only [heoc, Bool.false_eq_true, if_false, hder]
-  have hi := hin ⟨.indefinite, c.mode⟩ (0 :: 0 :: tail)
+  have hi := hin ⟨.indefinite, c.mode, 0⟩ (0 :: 0 :: tail)
     (lim.map (· - ((identOctets cls true num).length + 1))) hmode (by simp) (by simp)
     (by
       intro l hl
@@ -796,7 +796,7 @@ theorem der_decodes_in_ber {β : Type} (e : Enc) (dec : Cons → Prog (β × Con
 theorem top_roundtrip (m : Mode) {β : Type} (e : Enc) (dec : Cons → Prog (β × Cons)) (v : β)
     (h : Codec m e dec v) (bytes : Bytes) (hw : e.write m = .ok bytes) :
     runG0 (decodeTop m dec) (St bytes none) = .ok (v, St [] none) := by
-  have := codec_roundtrip m e dec v h bytes hw ⟨.unbounded, m⟩ [] none rfl (by simp) (by simp) (by simp)
+  have := codec_roundtrip m e dec v h bytes hw ⟨.unbounded, m, 0⟩ [] none rfl (by simp) (by simp) (by simp)
   simp only [List.append_nil] at this
   simp [decodeTop, runG0_bind, this, Cons.exhausted]
 
